@@ -105,6 +105,7 @@ const (
 	carDirect       = "direct"        // chunkReader -> bufio -> conn.Conn
 	carDirectServer = "direct-server" // chunkReader -> real serverConnReader.handleTunneling (4-byte sniff, rewindable reader) -> bufio -> conn.Conn
 	carHTTP         = "http-base64"   // real clientTunnelHTTP.Write per write -> POST preamble + base64 blocks -> chunkReader -> server POST acceptance -> real serverHTTPTunnel (base64streamreader) -> bufio -> conn.Conn
+	carHTTPGet      = "http-get-s2c"  // HTTP 200 head of the tunnel's GET channel + raw stream -> chunkReader -> real newClientTunnelHTTP / clientTunnelHTTP.Read -> bufio -> conn.Conn
 	carWSc2s        = "websocket-c2s" // real clientTunnelWebSocket (wsWriter) -> masked frames -> chunkReader -> real server upgrade (handleTunneling) -> wsReader -> bufio -> conn.Conn
 	carWSs2c        = "websocket-s2c" // real server wsWriter -> unmasked frames -> chunkReader -> real clientTunnelWebSocket (wsReader) -> bufio -> conn.Conn
 )
@@ -289,6 +290,15 @@ func prepare(carrier string, writes [][]byte, hc *httpClient) (*wire, error) {
 			t += len(b)
 			w.blocks = append(w.blocks, t)
 		}
+	case carHTTPGet:
+		w.data = w.raw
+		t := 0
+		for _, b := range writes {
+			t += len(b)
+			w.blocks = append(w.blocks, t)
+		}
+		w.pre = []byte(httpTunnelGETResponse)
+		w.lo = 0
 	case carHTTP:
 		var err error
 		if hc == nil {
@@ -371,6 +381,32 @@ func (w *wire) open(cuts []int, one bool, fast bool) (*session, error) {
 			return nil, err
 		}
 		s.conn = conn.NewConn(s.reader(rw), rw)
+	case carHTTPGet:
+		// the server's answer on the GET channel and what it sends afterwards are one byte stream: cut 0 is
+		// the boundary head|stream (the usual arrival), no cut = head and stream in the same read
+		if w.full == nil {
+			w.full = append(append(make([]byte, 0, len(w.pre)+len(w.data)), w.pre...), w.data...)
+		}
+		sh := make([]int, len(cuts))
+		for i, c := range cuts {
+			sh[i] = c + len(w.pre)
+		}
+		s.cr = &chunkReader{data: w.full, cuts: sh, one: one}
+		get, post := &memConn{in: []io.Reader{s.cr}}, &memConn{}
+		n := 0
+		dial := func(context.Context, string, string) (net.Conn, error) {
+			n++
+			if n == 1 {
+				return get, nil
+			}
+			return post, nil
+		}
+		u, _ := baseURL("rtsp://host:8554/stream?x=1")
+		tun, err := gortsplib.VerifC04NewClientTunnelHTTP(context.Background(), "host:8554", dial, u)
+		if err != nil {
+			return nil, err
+		}
+		s.conn = conn.NewConn(s.reader(tun), tun)
 	case carHTTP:
 		if fast {
 			s.cr = &chunkReader{data: w.data, cuts: cuts, one: one}
